@@ -1,0 +1,13 @@
+//go:build verif
+
+// Contracts for the verification machinery in /verif (comment-only; no code).
+// udpswarm: a Receive whose context is cancelled must return; a blocking socket read cannot.
+
+package udpswarm
+
+//@ func (*Swarm).Receive
+//@   noframe
+//@   requires s != nil && s.conn != nil
+//@   wakes done(ctx)
+//@   fnspec th:
+//@     pure
